@@ -279,58 +279,71 @@ class C40(Prop):
                 outputs.append([n, cyc, fl, self.rand_outputs(rng)])
         return {'states': states, 'outputs': outputs}
 
-    def rand_pattern(self, rng, values):
-        """A pattern for one field given the recorded values of that field."""
+    def rand_pattern(self, rng, v, disturb):
+        """A pattern derived from the recorded value `v`: substrings replaced by "*" (still matches `v`);
+        with `disturb`, one literal character is then swapped for a metacharacter / the other case / another
+        character, or a metacharacter is inserted (the near misses the property is about)."""
         r = rng.random()
-        if r < 0.08:
+        if r < 0.07:
             return None
-        if r < 0.1:
+        if r < 0.09:
             return ''
-        if r < 0.16:
+        if r < 0.14:
             return '*'
-        v = rng.choice(values) if values else 'a'
-        if r < 0.3:
-            return v                                    # exact
         s = list(v)
-        # replace a random substring by "*"
-        i = rng.randint(0, len(s))
-        j = rng.randint(i, len(s))
-        if r < 0.85:
+        if r >= 0.32:
+            i = rng.randint(0, len(s))
+            j = rng.randint(i, len(s))
             s[i:j] = ['*']
-            if rng.random() < 0.2 and len(s) > 1:
+            if rng.random() < 0.25 and len(s) > 1:
                 k = rng.randint(0, len(s))
                 s[k:k] = ['*']
-        # then maybe disturb one literal character
-        lits = [k for k, c in enumerate(s) if c != '*']
-        d = rng.random()
-        if lits and d < 0.55:
-            k = rng.choice(lits)
-            e = rng.random()
-            if e < 0.35 and s[k].swapcase() != s[k] and len(s[k].swapcase()) == 1:
-                s[k] = s[k].swapcase()
-            elif e < 0.8:
-                s[k] = rng.choice(META)
+        if disturb:
+            lits = [k for k, c in enumerate(s) if c != '*']
+            d = rng.random()
+            if lits and d < 0.8:
+                k = rng.choice(lits)
+                e = rng.random()
+                if e < 0.35 and s[k].swapcase() != s[k] and len(s[k].swapcase()) == 1:
+                    s[k] = s[k].swapcase()
+                elif e < 0.85:
+                    s[k] = rng.choice(META)
+                else:
+                    s[k] = rng.choice(ALPHA)
             else:
-                s[k] = rng.choice(ALPHA)
-        elif d < 0.65:
-            s.insert(rng.randint(0, len(s)), rng.choice(META))
+                s.insert(rng.randint(0, len(s)), rng.choice(META))
         return ''.join(s)
 
     def rand_query(self, rng, db):
         mode = rng.choice(['status', 'status', 'trigger', 'message'])
         rows = db['states'] if mode == 'status' else db['outputs']
-        names = [r[0] for r in rows] or [r[0] for r in db['states']]
-        cycles = [r[1] for r in rows] or ['1']
-        task = self.rand_pattern(rng, names)
-        cycle = self.rand_pattern(rng, cycles) if rng.random() < 0.6 else rng.choice([None, '*', rng.choice(cycles)])
+        if not rows:
+            mode, rows = 'status', db['states']
+        # aim at one recorded row, then disturb the query in at most one or two places
+        name, cyc, flows, last = rng.choice(rows) if mode != 'status' else (lambda r: (r[0], r[1], r[2], r[4]))(rng.choice(rows))
+        task = self.rand_pattern(rng, name, rng.random() < 0.3)
+        c = rng.random()
+        cycle = (None if c < 0.25 else '*' if c < 0.35 else cyc if c < 0.55
+                 else self.rand_pattern(rng, cyc, rng.random() < 0.25))
         r = rng.random()
         if mode == 'status':
-            sel = None if r < 0.45 else rng.choice(FINAL) if r < 0.93 else rng.choice(STATUSES + ['', 'bogus'])
-        elif mode == 'trigger':
-            sel = None if r < 0.25 else rng.choice(OUTPUT_NAMES + ['finished', 'finish', 'Finished'])
+            sel = (None if r < 0.4 else last if (r < 0.8 and last in FINAL) else rng.choice(FINAL) if r < 0.93
+                   else rng.choice(STATUSES + ['', 'bogus']))
         else:
-            sel = None if r < 0.25 else rng.choice(OUTPUT_NAMES + ['the quick brown', 'msg x', 'finished'])
-        flow = None if rng.random() < 0.55 else rng.choice([1, 1, 2, 3, 4])
+            o = last
+            keys = [k for k, _ in o['d']] if 'd' in o else list(o['l'])
+            msgs = [m for _, m in o['d']] if 'd' in o else list(o['l'])
+            own = keys if mode == 'trigger' else msgs
+            if r < 0.25:
+                sel = None
+            elif r < 0.7 and own:
+                sel = rng.choice(own)
+            elif r < 0.82 and mode == 'trigger':
+                sel = rng.choice(['finished', 'finish'])
+            else:
+                sel = rng.choice(OUTPUT_NAMES + ['the quick brown', 'msg x', 'finished', 'Finished'])
+        f = rng.random()
+        flow = None if f < 0.55 else (rng.choice(flows) if (f < 0.8 and flows) else rng.choice([1, 1, 2, 3, 4]))
         return {'task': task, 'cycle': cycle, 'selector': sel, 'mode': mode, 'flow': flow}
 
     def gen(self, tier, rng):
